@@ -82,11 +82,12 @@ class History(object):
         self.runs = {}
 
     def add(self, stage, args, scratch, outputs, inputs, outdirs=(), plan=None, may_write_input=False,
-            expect_fail=False):
+            expect_fail=False, shared_hooks=False, end_token=None):
         run = len(self.jobs) + 1
         jp, op = self.dir / f'job_{run}.json', self.dir / f'out_{run}.json'
         job = {'stage': stage, 'run': run, 'sentinel_dir': str(self.sent), 'args': args,
-               'trace_dir': str(self.dir / f'hooks_{run}'), 'plan': plan}
+               'trace_dir': str(self.dir / ('hooks_shared' if shared_hooks else f'hooks_{run}')), 'plan': plan,
+               'end_token': end_token}
         if self.mode == 'par':
             job['barrier'] = str(self.sent)
         self.jobs.append((job, str(jp), str(op)))
@@ -264,6 +265,40 @@ def run(ctx):
         h.stage = 'mapping'
         histories.append(h)
 
+    # H5 mapping: failure while writing the outputs (HDF5 path in a directory that does not exist)
+    h = History(ctx, 'mapping_fail_output')
+    a, outs, ins = stage_spec('mapping', h.dir, 'a')
+    a['config']['hdf5_result_path'] = str(h.dir / 'no_such_dir' / 'res.h5')
+    h.add('mapping', a, h.dir / 'scratch', outs, ins, outdirs=[h.dir / 'out'], expect_fail=True)
+    h.kind = 'failure'
+    h.stage = 'mapping'
+    histories.append(h)
+    # H6 mapping: stale files planted, then a failing run: the stale entries must survive
+    h = History(ctx, 'mapping_stale_then_failure')
+    a, outs, ins = stage_spec('mapping', h.dir, 'a')
+    plant(h.dir / 'scratch')
+    h.stale_before = listing(h.dir / 'scratch')
+    a['config']['query_markers']['serialized_lookup'] = str(h.dir / 'missing_markers.json')
+    h.add('mapping', a, h.dir / 'scratch', outs, ins, outdirs=[h.dir / 'out'], expect_fail=True)
+    h.kind = 'stale'
+    h.stage = 'mapping'
+    histories.append(h)
+    # H7 mapping: two concurrent runs share the scratch directory; the first fails early, the second
+    # is held (gate) in the middle of its assignment until the first has ended, then must finish
+    h = History(ctx, 'mapping_concurrent_one_fails', mode='par')
+    a1, outs1, ins1 = stage_spec('mapping', h.dir, 'a')
+    a1['config']['query_markers']['serialized_lookup'] = str(h.dir / 'missing_markers.json')
+    h.add('mapping', a1, h.dir / 'scratch', outs1, ins1, outdirs=[h.dir / 'out'], expect_fail=True,
+          shared_hooks=True, end_token='first_ended')
+    a2, outs2, ins2 = stage_spec('mapping', h.dir, 'b')
+    pp = h.dir / 'plan_wait.json'
+    json.dump({'rules': [{'point': 'map.mid', 'match': {}, 'wait_for': ['first_ended'], 'timeout': 60}]},
+              open(pp, 'w'))
+    h.add('mapping', a2, h.dir / 'scratch', outs2, ins2, outdirs=[h.dir / 'out'], plan=str(pp), shared_hooks=True)
+    h.kind = 'concurrent'
+    h.stage = 'mapping'
+    histories.append(h)
+
     # ------------------------------------------------------------------ execute
     import concurrent.futures as cf
     with cf.ThreadPoolExecutor(max_workers=6) as ex:
@@ -301,7 +336,7 @@ def run(ctx):
                            {'history': h.name})
         else:
             left = listing(h.dir / 'scratch')
-            if left and not any(i['expect_fail'] for i in h.runs.values()):
+            if left:
                 ctx.report(f'{h.stage}:{h.kind}:left', f'scratch directory not empty after {h.kind} '
                            f'run(s) of {h.stage}: {sorted(left)[:6]}', {'history': h.name})
         traces.append({'stale': STALE if h.kind == 'stale' else [], 'mayWriteInput': False, 'events': evs})
